@@ -103,6 +103,9 @@ class Harness(cm.BaseB):
                 for v in (0.1, 0.25, 1, 7.5, 10, 25, 50, 50.5, 100, 400, 950, 1200, 0.3, 4.8, 2.4):
                     for md in (1, 2, 3, 6, 10, 12):
                         yield {"kind": "rd", "v": v, "m": m, "md": md}
+                        if md in (3, 12):
+                            yield {"kind": "rd", "v": v, "m": m, "md": md, "auto_split": False, "cls": "EvoWorklist"}
+                            yield {"kind": "rd", "v": v, "m": m, "md": md, "auto_split": False, "cls": "FluentWorklist"}
 
     def one(self, case):
         return getattr(self, "one_" + case["kind"])(case)
@@ -202,7 +205,7 @@ class Harness(cm.BaseB):
     # -------------------------------------------------------------- reagent distribution
     def one_rd(self, case):
         v, m, md = case["v"], case["m"], case["md"]
-        wl = rt.BaseWorklist(max_volume=m)
+        wl = getattr(rt, case.get("cls", "BaseWorklist"))(max_volume=m, auto_split=case.get("auto_split", True))
         V = []
         try:
             wl.reagent_distribution("S", 1, 8, "D", 1, 12, volume=v, multi_disp=md)
